@@ -66,6 +66,31 @@ fn main() {
             let id = args.get(2).expect("property id");
             std::process::exit(checks::run_check(&ctx, &engines(), id));
         }
+        Some("selftest-determinism") => {
+            // every (engine, variant) class: N run indices executed twice, by different worker
+            // processes, once with 1 worker and once with 16; the complete reports must agree
+            let ctx = ctx_from_env(&args[2..]);
+            let n: u64 = args.get(2).and_then(|s| s.parse().ok()).unwrap_or(300);
+            let mut bad = 0;
+            for (engine, variant, scale) in [("e3", "", 4), ("e1", "l1", 2), ("e1", "l2", 2), ("e1", "c13", 2), ("e1", "c08", 2),
+                ("e2", "c18", 1), ("e2", "c18f", 1), ("e2", "c17", 1), ("e2", "c08", 1), ("e2", "c13", 1), ("e2", "arte", 1)] {
+                let cfg = ctx.worker_cfg(false);
+                let a = sim::run_collect(&cfg, engine, variant, ctx.verif_seed, n * scale, 16);
+                let b = sim::run_collect(&cfg, engine, variant, ctx.verif_seed, n * scale, 1.max(ctx.workers / 8));
+                let diff: Vec<u64> = a.iter().filter(|(k, v)| b.get(k) != Some(v)).map(|(k, _)| *k).collect();
+                println!("determinism {engine}/{variant}: {} runs x2, {} differ {:?}", a.len(), diff.len(), diff.iter().take(5).collect::<Vec<_>>());
+                bad += diff.len();
+            }
+            std::process::exit(if bad == 0 { 0 } else { 1 });
+        }
+        Some("selftest-hashseed") => {
+            // the getrandom override decides HashMap iteration order inside the simulator
+            let a = hashseed::on_fresh_instance(1, hashseed::probe_order);
+            let b = hashseed::on_fresh_instance(1, hashseed::probe_order);
+            let c = hashseed::on_fresh_instance(2, hashseed::probe_order);
+            println!("seed 1: {a:?}\nseed 1: {b:?}\nseed 2: {c:?}");
+            std::process::exit(if a == b && a != c { 0 } else { 1 });
+        }
         Some("replay") => {
             let ctx = ctx_from_env(&args[2..]);
             let path = args.get(2).expect("replay file");
@@ -82,6 +107,18 @@ fn main() {
             let st = std::process::Command::new("bash").arg("-c").arg(&args[3]).current_dir(&sc.project.cwd)
                 .env("NVSIM_ARGS", sc.project.config_args().join(" ")).status().unwrap();
             std::process::exit(st.code().unwrap_or(1));
+        }
+        Some("exec") => {
+            // nvsim exec <engine> <variant> <run index>: in-process execution, prints the report (debugging aid)
+            sandbox::enter_namespace().expect("namespace");
+            let ctx = ctx_from_env(&args[5..]);
+            let e = engines();
+            let eng = checks::engine_by_name(&e, &args[2]);
+            let seed = rng::run_seed(ctx.verif_seed, &format!("{}/{}", args[2], args[3]), args[4].parse().unwrap());
+            let sc = eng.generate(seed, &args[3], Tier::Quick);
+            let mut r = eng.execute(&sc);
+            r.sample = None;
+            println!("{}", serde_json::to_string(&r).unwrap());
         }
         Some("scenario") => {
             // nvsim scenario <engine> <variant> <run_seed>
